@@ -18,8 +18,13 @@ def genesisModel (line : String) : String :=
 def knownClasses : List (String × String × String × String) := [
   ("htlc", "validate", "timestamp", "F-gen-1"),
   ("htlc", "import", "timestamp", "F-gen-1"),
+  ("htlc", "import", "asset_not_found", "F-gen-5"),
+  ("htlc", "import", "asset_is_currently_inactive", "F-gen-5"),
+  ("htlc", "import", "over_the_supply_limit", "F-gen-5"),
   ("oracle", "fixpoint", "vals=", "F-gen-2"),
   ("oracle", "queries_same", "vals=", "F-gen-2"),
+  ("random", "validate", "ParseUint", "F-rnd-2"),
+  ("random", "import", "ParseUint", "F-rnd-2"),
   ("record", "fixpoint", "recs=", "F-gen-3"),
   ("record", "queries_same", "recs=", "F-gen-3")]
 
